@@ -21,6 +21,11 @@ var stressBuiltin = []string{
 	"각가각 あア一、。 （）", "a‍b‍\U0001F600 x­x ─x─ ¡Hola! ¿qué?",
 	"", "a", "\n", "\r\n",
 	"1,234.56 3.,5 1,,2 \"  (a)b c-1 a -1", "A. � a. B! 。 c? (d) e", "\xff\x80abc\xe2\x82 \xf0\x9f\x98", "กัก ါက ាក",
+	// twins: same length, same shape, the look-ahead rules decide differently (SB8, WB6/7, WB12, LB25) - whatever
+	// one goroutine's look-ahead leaves behind is wrong for the goroutine working on the twin
+	"Wait.  next one. So.", "Wait.  Next one. So.", "Etc.) 12 then more. x", "Etc.) 12 Then more. x",
+	"x'yz w x:yz", "x' yzw x: yz", "1,234 5;67", "1, 234 5; 7",
+	"$(12) %-5 a", "$(ab) %-b a",
 }
 
 func stressResult(s string) string {
